@@ -58,6 +58,10 @@ fn process_commands(
                     }
                 }
             }
+            // A command may queue more than the one message reported for it (a refusal returns
+            // its error and also sends it, a watcher is notified of its own write): what is left
+            // belongs to this command and must not be reported as the reply of the next one
+            while let Ok(Some(_)) = receiver.try_next() {}
         }
     }
 
